@@ -261,6 +261,7 @@ func (c09) Gen(r *simrt.Rand, idx int, tier string) *Case {
 	g.PPerf = 0.25
 	g.PAssert = 0.5
 	g.InexactAccrual = true
+	g.Ancient = idx%25 == 7
 	c := &Case{Sub: "roundtrip", Gen: &g}
 	if idx%2 == 1 {
 		g.Prices = "tree"
